@@ -417,19 +417,42 @@ def minFoldLimit (env : Env) : List IRFilter → Option Nat → R (Option Nat)
         | some l => if l < k then some k else acc)
     | none => pure none
 
-/-- `has_tag_on_fold_count`: a filter of a *parent-component vertex* uses this fold's count tag. -/
+/-- `is_tag_on_this_fold_count`: the field reference is the count of this fold. -/
+def isTagOnThisFoldCount (fold : Fold) : FieldRef → Bool
+  | .fcount eid rootVid => rootVid == fold.toVid && eid == fold.eid
+  | .ctx _ _ _ => false
+
+/-- a filter whose right operand is the tag of this fold's count -/
+def filterTagsFoldCount (fold : Fold) (f : IRFilter) : Bool :=
+  match f.right with
+  | some (.tag r) => isTagOnThisFoldCount fold r
+  | _ => false
+
+/-- `has_tag_on_fold_count`: this fold's count tag is used by a filter of a *parent-component
+vertex*, or by a fold of the parent component (the fold itself included, as in the Rust
+`parent_component.folds.values()`): among its imported tags (= used somewhere inside it) or as the
+tag operand of one of its post-filters. -/
 def hasTagOnFoldCount (parent : Component) (fold : Fold) : Bool :=
-  parent.vertices.any fun v =>
-    v.filters.any fun f =>
-      match f.right with
-      | some (.tag (.fcount eid rootVid)) => rootVid == fold.toVid && eid == fold.eid
-      | _ => false
+  (parent.vertices.any fun v => v.filters.any (filterTagsFoldCount fold)) ||
+  (parent.folds.any fun sib =>
+    sib.imports.any (isTagOnThisFoldCount fold) || sib.post.any (filterTagsFoldCount fold))
+
+mutual
+/-- `component_has_outputs`: the component, or any fold nested (at any depth) inside it, produces
+an output (fold-specific outputs of the nested folds included). -/
+def componentHasOutputs : Component → Bool
+  | .mk _ _ _ folds outputs => !outputs.isEmpty || foldsHaveOutputs folds
+def foldsHaveOutputs : List Fold → Bool
+  | [] => false
+  | (.mk _ _ _ _ _ comp _ fouts _) :: fs =>
+    (!fouts.isEmpty || componentHasOutputs comp) || foldsHaveOutputs fs
+end
 
 /-- The effective `min_fold_size` of `compute_fold`. -/
 def effectiveMinLimit (env : Env) (parent : Component) (fold : Fold) : R (Option Nat) := do
   match ← minFoldLimit env fold.post none with
   | some m =>
-    pure (if fold.component.outputs.isEmpty && fold.fouts.isEmpty && !hasTagOnFoldCount parent fold
+    pure (if !componentHasOutputs fold.component && fold.fouts.isEmpty && !hasTagOnFoldCount parent fold
          then some m else none)
   | none => pure none
 
@@ -477,7 +500,12 @@ def applyPostFilter (env : Env) (parent : Component) (fold : Fold) (f : IRFilter
     match ← applyFilter env parent fold.fromVid f [c.pushValue (.uint64 (UInt64.ofNat n))] with
     | [] => pure none
     | c' :: _ => pure (some c')
-  | some none => .panic "while applying fold-specific filter, the @fold turned out to not exist: unreachable!"
+  | some none => do
+    -- the @fold is inside an @optional scope that does not exist: the placeholder `Null` is
+    -- pushed and the ordinary filter stage runs (a context without active vertex passes)
+    match ← applyFilter env parent fold.fromVid f [c.pushValue .null] with
+    | [] => pure none
+    | c' :: _ => pure (some c')
   | none => .panic "ctx.folded_contexts[&fold_eid]"
 
 def applyPostFilters (env : Env) (parent : Component) (fold : Fold) :
